@@ -326,6 +326,13 @@ func init() {
 		}
 		return tuple{n, nilError()}
 	}
+	st["(*strings.Builder).Write"] = func(fr *frame, args []value) value {
+		slot, cur := builderGet(args[0])
+		p := fr.i.p
+		bs := args[1].([]value)
+		*slot = p.strConcat(p.strOf(cur), p.strOf(p.bytesToStr(bs)))
+		return tuple{len(bs), nilError()}
+	}
 	st["(*strings.Builder).WriteByte"] = func(fr *frame, args []value) value {
 		slot, cur := builderGet(args[0])
 		p := fr.i.p
@@ -339,6 +346,10 @@ func init() {
 		r := rune(fr.i.concInt(args[1], "writerune"))
 		*slot = p.strConcat(p.strOf(cur), p.strOf(string(r)))
 		return tuple{len(string(r)), nilError()}
+	}
+
+	for _, n := range []string{"internal/stringslite.Clone", "strings.Clone", "strconv.cloneString"} {
+		st[n] = func(fr *frame, args []value) value { return args[0] }
 	}
 
 	// ---------------- sort ----------------
